@@ -10,7 +10,9 @@ resources, src and chunk parameters erased and all tables sorted.
 The fact `Gen.c15SelfCompare` is regenerated from the source on every run.
 -/
 import Martian.Equiv
+import Martian.EquivMeaning
 import Proofs.Equiv
+import Proofs.EquivLockLTS
 import Gen.Facts
 
 namespace Props.C15
@@ -38,6 +40,57 @@ theorem equiv_iff_sem_eq (a b : Prog) (ha : a.wf = true) (hb : b.wf = true) :
       semCall (Prog.fuel a b) a.tab a.call = semCall (Prog.fuel a b) b.tab b.call := by
   simp only [Prog.wf, Bool.and_eq_true] at ha hb
   exact equivCall_iff_sem_eq _ _ _ _ _ ha.1.1 hb.1.1 ha.1.2 hb.1.2 ha.2 hb.2
+
+/-- THE statement at the level of the full meaning (`Martian.Equiv.meaning`: the
+call graph unfolded from the top-level call with all callable bodies, parameter
+types, modifiers, bindings, plus every aspect listed in `Ignored`):
+re-attach is accepted iff the COMPARED part of the meaning is unchanged.
+What `Ast.EquivalentCall` ignores, exactly as the Go code does, is the `ignored`
+component — constructor by constructor `Ignored.calleeName`, `.volatile`,
+`.stageSrc`, `.resources`, `.retain`, `.chunkParams`, `.fileTypeName` (scalar
+file kinds only), `.outName` (stage outputs, non-file pipeline outputs), `.help`,
+`.structDef` — and what is not meaning at all (comments, whitespace, every
+ordering, include structure, unreachable callables and types).  Each ignored
+aspect has its own edit class in the correspondence harness, which checks that
+the real code accepts it AND that the model sees exactly that aspect change. -/
+theorem equiv_iff_compared_meaning_eq (a b : FullProg) (ha : a.core.wf = true) (hb : b.core.wf = true) :
+    equivalentCall Gen.c15SelfCompare a.core b.core = true ↔
+      (meaning (Prog.fuel a.core b.core) a).compared = (meaning (Prog.fuel a.core b.core) b).compared :=
+  equiv_iff_sem_eq a.core b.core ha hb
+
+/-- Nothing in `Extra` (src, resources, retain, chunk parameters, help) and no
+struct definition can change the verdict: the comparison never reads them. -/
+theorem ignored_components_do_not_matter (a a' b : FullProg) (h : a.core = a'.core) :
+    equivalentCall Gen.c15SelfCompare a.core b.core = equivalentCall Gen.c15SelfCompare a'.core b.core ∧
+    equivalentCall Gen.c15SelfCompare b.core a.core = equivalentCall Gen.c15SelfCompare b.core a'.core := by
+  rw [h]; exact ⟨rfl, rfl⟩
+
+/-- `volatile` is ignored by `Modifiers.EquivalentTo` (both sides). -/
+theorem volatile_is_ignored (sc : Bool) (m o : Mods) (v : Bool) :
+    Mods.equiv sc { m with volatile := v } o = Mods.equiv sc m o ∧
+    Mods.equiv sc m { o with volatile := v } = Mods.equiv sc m o := by
+  simp [Mods.equiv]
+
+/-- the type NAME of a parameter of scalar file kind is ignored -/
+theorem scalar_file_type_name_is_ignored (x y : Param) (t : Key) (hx : x.fileKind = 2) :
+    inParamEq { x with tname := t } y = inParamEq x y ∧
+    inParamEq y { x with tname := t } = inParamEq y x := by
+  constructor
+  · simp [inParamEq, hx]
+  · simp only [inParamEq]
+    by_cases hy : y.fileKind = 2
+    · simp [hy]
+    · have : (y.fileKind == x.fileKind) = false := by simpa [hx] using hy
+      simp [this]
+
+/-- the output file name of a STAGE output is ignored (`checkOutNames = false`) -/
+theorem stage_out_name_is_ignored (x y : Param) (n : Key) :
+    outParamEq false { x with outName := n } y = outParamEq false x y := by
+  simp [outParamEq, inParamEq]
+
+/-- …but not that of a pipeline output of file or directory kind -/
+example : outParamEq true { tname := [116], arrayDim := 0, mapDim := 0, fileKind := 2, outName := [] }
+    { tname := [116], arrayDim := 0, mapDim := 0, fileKind := 2, outName := [1] } = false := by decide
 
 theorem equiv_refl (n : Nat) (T : Tab) (c : Call) (hT : T.wf = true) (hc : c.wf = true)
     (hcc : c.completeIn T = true) :
@@ -161,5 +214,79 @@ theorem registerFirst_lets_third_writer_in :
 
 example : lockRun false lockInit [.lock 1, .lock 2, .signal 2, .lock 3, .unlock 1, .lock 2, .signal 2, .lock 3]
     = some { lockFile := true, holders := [3], registered := [3] } := by decide
+
+/-! ## the lock protocol as a transition system (check and write are separate steps)
+
+`Martian.LockLTS`: actors = any number of mrp processes; actions `check p`,
+`write p` (the two halves of `Pipestance.Lock`), `unlock p`, `signal p` (death
+through the handler path), `kill p` (SIGKILL: nothing runs), `rmLock` (an
+operator deletes the file).  No heartbeat and no automatic stale-lock takeover
+exist in the code.  All theorems are over ALL traces / interleavings. -/
+
+open Martian.LockLTS in
+/-- Mutual exclusion for every interleaving in which (1) `Lock()` calls do not
+overlap and (2) the operator removes `_lock` only when nobody owns or acquires
+the pipestance: at most one process believes it owns the pipestance, and while
+one does the lock file exists.
+PARTIAL: the full statement (no assumption (1)) is FALSE for the code as written —
+`Lock()` is check-then-write without O_EXCL — see `lts_check_then_write_race`;
+without (2) see `lts_rmLock_under_live_owner`. -/
+theorem lts_mutual_exclusion_partial (tr : List Act) (s : St)
+    (h : run Gen.c15RegisterFirst disciplined init tr = some s) :
+    s.holders.length ≤ 1 ∧ (s.holders ≠ [] → s.lockFile = true) := by
+  rw [handler_registered_after_check] at h
+  have hi := inv_run tr init s inv_init h
+  rcases hi.owner with h0 | ⟨x, hx, hl⟩
+  · simp [h0]
+  · simp [hx, hl]
+
+open Martian.LockLTS in
+/-- An attach that is refused changes nothing at all — in ANY state, reachable or not. -/
+theorem lts_refused_attach_changes_nothing (s : St) (p : Nat) (h : s.lockFile = true) :
+    step Gen.c15RegisterFirst s (.check p) = (s, false) := by
+  rw [handler_registered_after_check]
+  cases s; simp_all [step]
+
+open Martian.LockLTS in
+/-- …and neither does the later death (graceful or not) of a process that neither
+owns nor is acquiring the pipestance — e.g. an attacher that was refused. -/
+theorem lts_death_of_bystander_changes_nothing (tr : List Act) (s : St) (p : Nat)
+    (h : run Gen.c15RegisterFirst disciplined init tr = some s)
+    (hc : p ∉ s.checked) (hh : p ∉ s.holders) :
+    (step Gen.c15RegisterFirst s (.signal p)).1 = s ∧ (step Gen.c15RegisterFirst s (.kill p)).1 = s := by
+  rw [handler_registered_after_check] at h ⊢
+  have hi := inv_run tr init s inv_init h
+  have hr : p ∉ s.registered := by rw [hi.reg p]; exact fun h => h.elim hc hh
+  have hrc : s.registered.contains p = false := by
+    cases hcn : s.registered.contains p
+    · rfl
+    · exact absurd (List.contains_iff_mem.mp hcn) hr
+  cases s
+  simp_all [step, drop_of_not_mem]
+
+open Martian.LockLTS in
+/-- A lock left behind by a killed owner is never taken over: every attach is refused
+until the file is removed (there is no stale-lock rule in the code). -/
+theorem lts_stale_lock_blocks (s : St) (p q : Nat) (h : s.lockFile = true) :
+    (step Gen.c15RegisterFirst (step Gen.c15RegisterFirst s (.kill p)).1 (.check q)).2 = false := by
+  simp [step, h]
+
+open Martian.LockLTS in
+/-- Negative witness (not a hypothetical: this is the code's `exists` … `WriteFile`):
+two overlapping `Lock()` calls both succeed. -/
+theorem lts_check_then_write_race :
+    ∃ s, run false anything init [.check 1, .check 2, .write 1, .write 2] = some s ∧ s.holders = [2, 1] := by
+  exact ⟨_, rfl, rfl⟩
+
+open Martian.LockLTS in
+/-- Negative witness: deleting `_lock` while its owner is alive lets a second owner in. -/
+theorem lts_rmLock_under_live_owner :
+    ∃ s, run false anything init [.check 1, .write 1, .rmLock, .check 2, .write 2] = some s ∧ s.holders = [2, 1] := by
+  exact ⟨_, rfl, rfl⟩
+
+open Martian.LockLTS in
+example : run false disciplined init
+    [.check 1, .write 1, .check 2, .signal 2, .check 3, .kill 1, .check 2, .rmLock, .check 2, .write 2, .unlock 2]
+    = some { lockFile := false, checked := [], holders := [], registered := [] } := by decide
 
 end Props.C15
